@@ -357,6 +357,26 @@ func alphabet() []item {
 		{"notif-unknown", func(m *model, i int) step {
 			return m.stamp(notification("notif-unknown", "workspace/didChangeConfiguration", `{"settings":{}}`))
 		}},
+		// ---- method-name classes: reserved "$/" names and unknown names, each as a request (one response owed,
+		// whatever it says) and as a notification (nothing owed)
+		{"req-dollar", func(m *model, i int) step {
+			return m.stamp(request(m, "req-dollar", numID(i), "$/unknownRequest", `{}`))
+		}},
+		{"req-cancel-id", func(m *model, i int) step {
+			return m.stamp(request(m, "req-cancel-id", strID(i), "$/cancelRequest", `{"id":1}`))
+		}},
+		{"req-unknown", func(m *model, i int) step {
+			return m.stamp(request(m, "req-unknown", numID(i), "workspace/executeCommand", `{"command":"x"}`))
+		}},
+		{"req-empty-method", func(m *model, i int) step {
+			return m.stamp(request(m, "req-empty-method", numID(i), "", `{}`))
+		}},
+		{"notif-cancel", func(m *model, i int) step {
+			return m.stamp(notification("notif-cancel", "$/cancelRequest", `{"id":1}`))
+		}},
+		{"notif-settrace", func(m *model, i int) step {
+			return m.stamp(notification("notif-settrace", "$/setTrace", `{"value":"off"}`))
+		}},
 		// ---- messages that are neither a request nor a notification
 		junk("id-null", `{"jsonrpc":"2.0","id":null,"method":"textDocument/hover","params":{`+tdMain+`,"position":{"line":0,"character":2}}}`, ""),
 		junk("malformed", `{"jsonrpc":"2.0","id":$ID,"method":`, "id"),
